@@ -332,6 +332,7 @@ def end_to_end(ignore: bool = False):
         return {"ok": False, "detail": f"{len(got)} records decoded by the reference, {len(want)} written", "cex": {"direction": "impl->ref"}}
     # converse: the reference encoder's bytes, with extra trailing metadata and without version
     fields = (("string", "label"), ("varint", "n"))
+    legacy = (("wstring", "label"), ("varint", "n"))
     gen = _dt.datetime(2020, 5, 6, 7, 8, 9, 10, tzinfo=_dt.timezone.utc)
     objs = [
         wire.Desc("ref/rec", fields),
@@ -342,6 +343,9 @@ def end_to_end(ignore: bool = False):
         wire.Rec("ref/rec", fields, ("later-version", 6, None, "c", gen, 2)),
         wire.Rec("ref/rec", fields, ("later-version-extras", 7, "s7", None, gen, "tlp:red", 99, 3)),
         wire.Grouped("g", [wire.Rec("ref/rec", fields, ("member", 5, None, None, gen, 1))]),
+        # a stream archived from an earlier release: type names are part of the identifier as they were written (aliases included)
+        wire.Desc("ref/legacy", legacy),
+        wire.Rec("ref/legacy", legacy, ("wide", 8, None, None, gen, 1)),
     ]
     import warnings
 
@@ -352,9 +356,9 @@ def end_to_end(ignore: bool = False):
         except Exception as e:  # noqa: BLE001
             return {"ok": False, "detail": f"implementation rejects a conforming stream: {type(e).__name__}: {e}", "cex": {"direction": "ref->impl"}}
     exp = [("plain", 1, "src", "cls"), ("extras", 2**80, None, None), ("int-extra", -(2**70), None, None), ("unversioned", 4, "s", None), ("later-version", 6, None, "c"), ("later-version-extras", 7, "s7", None),
-           ("member", 5, None, None)]
+           ("member", 5, None, None), ("wide", 8, None, None)]
     seen = [(r.label, r.n, r._source, r._classification) for r in back]
-    ok = seen == exp and all(r._generated == gen and r._version == 1 for r in back)
+    ok = seen == exp and all(r._generated == gen and r._version == 1 for r in back) and tuple(back[-1]._desc.get_field_tuples()) == legacy
     return {"ok": ok, "detail": f"{len(recs)} records impl->reference, {len(exp)} records reference->impl" if ok else f"implementation decodes the reference stream to {seen}", "cex": {"direction": "ref->impl"}}
 
 
